@@ -13,6 +13,22 @@ use std::sync::{Arc, Mutex};
 
 /// values read back from salsa that carry the allocator's poison pattern (C23)
 pub static POISON_READS: AtomicU64 = AtomicU64::new(0);
+/// reads of a tracked struct whose two identity fields do not belong together
+pub static IDENT2_MISMATCH: AtomicU64 = AtomicU64::new(0);
+
+pub fn ident2_of(ident: u32) -> u32 {
+    ident.wrapping_mul(5).wrapping_add(1) % 7
+}
+
+/// first identity field of a struct; checks the second one against it
+pub fn ts_ident<'db>(db: &'db dyn SimDb, h: &Ts<'db>) -> u32 {
+    let a = h.ident(db).0;
+    let b = h.ident2(db).0;
+    if b != ident2_of(a) {
+        IDENT2_MISMATCH.fetch_add(1, SeqCst);
+    }
+    a
+}
 const POISON_U32: u32 = 0xDEDE_DEDE;
 #[inline]
 fn chk(x: u32) -> u32 {
@@ -248,9 +264,17 @@ fn conv_event(e: &salsa::Event) -> Ev {
         E::DidValidateMemoizedValue { database_key } => key(SK::DidValidateMemo, *database_key, 0),
         E::WillBlockOn { database_key, .. } => key(SK::WillBlockOn, *database_key, 0),
         E::WillExecute { database_key } => key(SK::WillExecute, *database_key, 0),
-        E::WillIterateCycle { database_key, iteration } => key(SK::WillIterateCycle, *database_key, *iteration as u64),
+        E::WillIterateCycle { database_key, iteration } => {
+            #[cfg(feature = "e3")]
+            salsa::verif::trace_mark("iterate");
+            key(SK::WillIterateCycle, *database_key, *iteration as u64)
+        }
         E::DidFinalizeCycle { database_key, iteration } => key(SK::DidFinalizeCycle, *database_key, *iteration as u64),
-        E::WillCheckCancellation => Ev::SalsaPlain(SK::WillCheckCancellation),
+        E::WillCheckCancellation => {
+            #[cfg(feature = "e3")]
+            salsa::verif::trace_mark("check");
+            Ev::SalsaPlain(SK::WillCheckCancellation)
+        }
         E::DidSetCancellationFlag => Ev::SalsaPlain(SK::DidSetCancellationFlag),
         E::WillDiscardStaleOutput { execute_key: _, output_key } => key(SK::WillDiscardStaleOutput, *output_key, 0),
         E::DidDiscard { key: k } => key(SK::DidDiscard, *k, 0),
@@ -284,6 +308,10 @@ impl SimDatabase {
         let s2 = shared.clone();
         let storage = salsa::Storage::new(Some(Box::new(move |e: salsa::Event| {
             // WillCheckCancellation is emitted on every fetch: not user-visible work, not a fault point
+            #[cfg(feature = "e3")]
+            if matches!(e.kind, salsa::EventKind::WillCheckCancellation) {
+                salsa::verif::trace_mark("check");
+            }
             if !matches!(e.kind, salsa::EventKind::WillCheckCancellation) {
                 let ev = conv_event(&e);
                 if let Ev::Salsa { k, .. } = &ev {
@@ -386,6 +414,10 @@ pub struct In {
 pub struct Ts<'db> {
     #[returns(copy)]
     pub ident: V,
+    /// second identity field, a fixed function of the first (`ident2_of`): every read of a
+    /// struct checks that the pair it carries is one it can have been created with
+    #[returns(copy)]
+    pub ident2: V,
     #[tracked]
     #[returns(copy)]
     pub t0: V,
@@ -550,13 +582,13 @@ impl<'db> Host for SalsaHost<'db> {
         r
     }
     fn new_ts(&mut self, ident: u32, t0: u32, t1: u32) -> Ts<'db> {
-        let t = Ts::new(self.db, V(ident), V(t0), V(t1));
+        let t = Ts::new(self.db, V(ident), V(ident2_of(ident)), V(t0), V(t1));
         self.db.sh().push(Ev::NewTs { creator: self.me, ident, id: t.as_id().as_bits(), t0, t1 });
         t
     }
     fn read_ts(&mut self, h: &Ts<'db>, f: usize) -> u32 {
         let v = chk(match f {
-            0 => h.ident(self.db).0,
+            0 => ts_ident(self.db, h),
             1 => h.t0(self.db).0,
             _ => h.t1(self.db).0,
         });
@@ -618,7 +650,7 @@ fn exec<'db>(db: &'db dyn SimDb, node: usize, me: u64, r0: u32, ts0: Option<Ts<'
     let sh = db.sh();
     sh.push(Ev::Exec { node, id: me, arg: r0 });
     #[cfg(feature = "e3")]
-    salsa::verif::trace_mark(if matches!(sh.prog.nodes[node].kind, Kind::Fix | Kind::FixJ | Kind::FixBad) { "enter:fix" } else { "enter:other" });
+    salsa::verif::trace_mark(if matches!(sh.prog.nodes[node].kind, Kind::Fix | Kind::FixJ | Kind::FixBad | Kind::Fb) { "enter:fix" } else { "enter:other" });
     let mut h = SalsaHost { db, me };
     let out = run_body(&mut h, &sh.prog, node, r0, ts0, it0);
     #[cfg(feature = "e3")]
